@@ -29,6 +29,28 @@ def qvec(rng, n, kind, r=2):
         # charges beyond 2**53 that differ by one or two units: not representable as (distinct) doubles
         base = int(rng.choice([(1 << 53) + 1, (1 << 60) + 12345, 10 ** 18 + 7, -(1 << 61) - 3]))
         return base + rng.integers(-r, r + 1, size=n).astype(np.int64)
+    if kind == 'extreme-signs':
+        # charges near +2**62 and -2**62 next to each other and next to small ones: differences of neighbours overflow int64
+        pool = np.array([(1 << 62) + 5, -(1 << 62) - 7, 0, 1, (1 << 62) + 6, -(1 << 62) - 8], dtype=np.int64)
+        return pool[rng.integers(0, len(pool), size=n)]
+    if kind in ('wrap-sorted', 'wrap-sorted-int8'):
+        # ascending runs joined by descents so large that the DIFFERENCE of the neighbours overflows the integer type (an ascent after wrap-around):
+        # looks sorted to np.diff(q) >= 0, is not sorted
+        if kind == 'wrap-sorted':
+            hi, lo, dt = [(1 << 62) + 5, (1 << 62) + 6], [-(1 << 62) - 8, -(1 << 62) - 7], np.int64
+        else:
+            hi, lo, dt = [100, 127], [-128, -100], np.int8
+        mid = [0, 1]
+        n1 = int(rng.integers(1, max(2, n)))
+        r1 = sorted(int(x) for x in rng.choice(mid + hi, size=n1))
+        r1[-1] = int(rng.choice(hi))
+        r2 = sorted(int(x) for x in rng.choice(lo + mid + hi, size=max(n - n1, 0)))
+        if r2:
+            r2[0] = int(rng.choice(lo))
+        return np.array((r1 + r2)[:n], dtype=dt)
+    if kind == 'int8':
+        # labels stored in a narrow integer type with values near its limits (differences of neighbours overflow int8)
+        return rng.choice(np.array([-120, -100, 0, 1, 100, 127]), size=n).astype(np.int8)
     if kind == 'negative':
         return -rng.integers(0, 2 * r + 1, size=n)
     raise ValueError(kind)
